@@ -73,6 +73,45 @@ CHECKS = {
         "adopted, not asserted; output_property_arrays after pickle carries "
         "no claim."),
   technique="model-based (stateful) property-based testing with Hypothesis against a record-list reference model"),
+ 'C02': dict(
+  text=("Every Equation subclass shipped under pysph.sph is instantiated "
+        "from its signature, laid out by a recording dry run (strides, "
+        "constants), compiled in bundles (one JIT compile per bundle, each "
+        "class on its own destination/source arrays) with a rotating kernel "
+        "and dimension, and compared - bitwise for arithmetic-only code, "
+        "1e-9 relative otherwise - with a reference interpreter that "
+        "executes the same Python methods with pair symbols computed from "
+        "their documented formulas and the Python kernel class, on "
+        "generated data sets."),
+  note=("Classes whose Python meaning is undefined on the generated inputs "
+        "are listed (coverage.skipped_classes), not passed; quick covers "
+        "about 120 classes per seed (rotating), thorough all of them x 3 "
+        "kernels; serial execution; generated user classes (G-B) are "
+        "covered through the C03/C04/C13 tracer and helper equations only."),
+  technique="differential property-based testing: compiled code vs. reference interpreter over generated data, classes enumerated from the package"),
+ 'C11': dict(
+  text=("Generated lists of particle arrays (five C types, strides 1-4, "
+        "non-zero defaults, constants, mixed tags, zero particles, drawn "
+        "output lists) and solver data are dumped and loaded through "
+        "pysph.solver.utils for {npz, hdf5} x compress x detailed x "
+        "only_real, optionally dumped and loaded again; the loaded arrays "
+        "are compared with an independent model, per uid and byte-exact; "
+        "synthesised version-1 files must still load."),
+  note=("mpi_comm path and non-default particle tags not exercised."),
+  technique="round-trip property-based testing (Hypothesis) against a record model"),
+ 'C20': dict(
+  text=("All 288 shipped Equation and 36 IntegratorStep classes plus toy and "
+        "Hypothesis-generated classes: for every explicitly or implicitly "
+        "(pair symbol) needed name removed from the destination or one of "
+        "1-3 sources, misspelt array names, in flat lists, groups, "
+        "sub-groups and multi-stage sets, building AccelerationEval / "
+        "SPHCompiler / get_code must raise a RuntimeError naming class and "
+        "name; the complete problem must be accepted. Nothing is ever "
+        "compiled or run."),
+  note=("Needed names derived independently from hook signatures and the "
+        "documented pair-symbol formulas; exhaustive over shipped classes "
+        "for the enumerated layouts."),
+  technique="exhaustive enumeration over shipped classes plus property-based generation (Hypothesis) with an independent requirement oracle"),
 }
 
 NOT_APPLICABLE = [
